@@ -31,7 +31,7 @@ m('connect_mirror_to_self', SD + 'node/mod.rs', '''            .push_inbound((se
 m('disconnect_wrong_mirror_key', D + 'node/mod.rs', 'other.inner.2.borrow_mut().remove_inbound(self.key())?;', 'other.inner.2.borrow_mut().remove_inbound(other.key())?;', [['C01', 'P2']])
 m('disconnect_mirror_wrong_list', SD + 'node/mod.rs', 'other.inner.2.write().unwrap().remove_inbound(self.key())?;', 'other.inner.2.write().unwrap().remove_outbound(self.key())?;', [['C01', 'P2']])
 m('adjacent_swap_remove', D + 'node/adjacent.rs', 'return Ok(self.inbound.remove(idx).1);', 'return Ok(self.inbound.swap_remove(idx).1);', [['C01', 'ENC-b'], ['C03', 'ENC-b']])
-m('adjacent_push_front', SD + 'node/adjacent.rs', 'self.outbound.push((WeakNode::downgrade(&edge.0), edge.1));', 'self.outbound.insert(0, (WeakNode::downgrade(&edge.0), edge.1));', [['C03', 'ENC-b'], ['C12', 'ENC-b']])
+m('adjacent_push_front', SD + 'node/adjacent.rs', 'self.outbound.push((WeakNode::downgrade(&edge.0), edge.1));', 'self.outbound.insert(0, (WeakNode::downgrade(&edge.0), edge.1));', [['C03', 'ENC-b'], ['C12', 'ENC-push']])
 m('remove_last_match', U + 'node/adjacent.rs', 'for (idx, edge) in self.inbound.iter().enumerate() {', 'for (idx, edge) in self.inbound.iter().enumerate().rev() {', [['C02', 'RM1'], ['C03', 'RM1']])
 m('isolate_skip_inbound_loop', D + 'node/mod.rs', '''        for Edge(v, _, _) in self.iter_in() {
             v.inner.2.borrow_mut().remove_outbound(self.key()).unwrap();
@@ -156,7 +156,7 @@ m('pfs_reverse_swapped', SD + 'node/algo/pfs.rs', '''                Priority::M
                         false => None,
                     }
                 }
-                Priority::Min => {''', [['C06', 'PFS1']], count=2)
+                Priority::Min => {''', [['C09', 'PFS1']], count=2)
 m('node_cmp_by_key', U + 'node/mod.rs', '''    fn cmp(&self, other: &Self) -> std::cmp::Ordering {
         self.value().cmp(other.value())
     }''', '''    fn cmp(&self, other: &Self) -> std::cmp::Ordering {
